@@ -257,6 +257,59 @@ def replay_stream(inputs, label, kind, name, sizes):
     return False, "not reproduced"
 
 
+# ---------------------------------------------------------------- Monte-Carlo integration helper of the regression strategies
+def _sampling_regressor():
+    """ProbabilisticRegressor by contract: sample_y draws from the generator it is handed (the process-global one when
+    random_state is None - scikit-learn's / scipy's documented behaviour)"""
+    from skactiveml.base import ProbabilisticRegressor
+
+    class SamplingReg(ProbabilisticRegressor):
+        def fit(self, X, y, sample_weight=None):
+            return self
+
+        def predict_target_distribution(self, X):
+            raise core.Unencodable("predict_target_distribution")
+
+        def sample_y(self, X, n_samples=1, random_state=None):
+            rng = facade.check_random_state_stub(random_state)
+            return rng.random_sample((len(X), n_samples))
+    return SamplingReg()
+
+
+def sym_mc_expect(c, n, m):
+    from skactiveml.pool.utils import _conditional_expect
+    seed = core.fresh_int("seed", 0, 2 ** 31 - 2)
+    rec(c, "seed", seed)
+    xs = [core.fresh_float(f"x{i}") for i in range(n)]
+    X = arrays.SymNd(arrays._to_obj(xs), float).reshape(n, 1)
+    rec(c, "X", X)
+    outs = []
+    for g in ("G1", "G2"):
+        facade.set_global_seed(z3.Int(g))
+        outs.append(_conditional_expect(X, lambda idx, x, y: y, _sampling_regressor(), method="monte_carlo",
+                                        n_integration_samples=m, random_state=seed))
+    a, b = arrays.raw(arrays.asnd(outs[0])).reshape(-1), arrays.raw(arrays.asnd(outs[1])).reshape(-1)
+    c.prove(b_and(*[boolexpr(s_eq(u, v)) for u, v in zip(a, b)]), "monte_carlo_expectation_independent_of_global_generator")
+    c.witness(True, "ran")
+
+
+def replay_mc_expect(inputs, label, n, m):
+    from skactiveml.pool.utils import _conditional_expect
+    from skactiveml.regressor import NICKernelRegressor
+    X = np.array(inputs["X"], dtype=float).reshape(n, 1)
+    reg = NICKernelRegressor().fit(np.array([[0.0], [1.0], [2.0]]), np.array([0.0, 1.0, 0.5]))
+    for seed in (int(inputs.get("seed", 0)), 0, 1):
+        outs = []
+        for g in range(4):
+            np.random.seed(g)
+            outs.append(np.asarray(_conditional_expect(X, lambda idx, x, y: y, reg, method="monte_carlo", n_integration_samples=m,
+                                                       random_state=seed)))
+        if any(not np.array_equal(o, outs[0]) for o in outs):
+            return True, (f"_conditional_expect(method='monte_carlo', random_state={seed}) on NICKernelRegressor depends on numpy's "
+                          f"global generator: {[o.tolist() for o in outs[:2]]}")
+    return False, "not reproduced"
+
+
 # ---------------------------------------------------------------- classifier tie-breaking
 def sym_clf(c, n, nq):
     from skactiveml.classifier import ParzenWindowClassifier
@@ -295,14 +348,18 @@ def _cfg_pool(name):
         for mode in (("none",) if tier == "quick" else ("none", "idx", "rows")):
             if mode == "rows" and not a.supports_rows:
                 continue
-            for b in ((2,) if tier == "quick" else (1, 2, 3)):
-                if getattr(a, "slow", False) and b > 1 and not name.startswith("ProbCover"):
+            slow = getattr(a, "slow", False) and not name.startswith("ProbCover")
+            for b in (((1,) if slow else (2,)) if tier == "quick" else (1, 2, 3)):
+                if slow and b > 1:
                     continue
                 out.append(dict(strat=name, n=3, mode=mode, b=b))
         if name in ("RandomSampling", "UncertaintySampling[least_confident]"):
             # random_state passed as a RandomState instance; explicit candidates incl. the fully labeled pool
             for mode in ("idx", "rows"):
                 out.append(dict(strat=name, n=3, mode=mode, b=2, rs="instance"))
+        elif not getattr(a, "slow", False) or name.startswith("ProbCover"):
+            # every strategy: a RandomState instance must not be consumed (the strategy works on its own copy)
+            out.append(dict(strat=name, n=3, mode="none", b=2, rs="instance"))
         return out
     return cfg
 
@@ -322,6 +379,8 @@ HARNESSES = [Harness(f"pool_twin[{name}]", sym_pool, replay_pool, _cfg_pool(name
             [sl.BM_UNITS[k] for k in sl.ALL_MANAGERS] + ["skactiveml.stream._uncertainty_zliobaite:UncertaintyZliobaite._validate_data",
                                                           "skactiveml.base:SingleAnnotatorStreamQueryStrategy._validate_random_state",
                                                           "skactiveml.utils._validation:check_random_state"], required_witnesses=("ran",)),
+    Harness("monte_carlo_expectation", sym_mc_expect, replay_mc_expect, lambda tier: [dict(n=2, m=2)] + ([dict(n=3, m=3)] if tier != "quick" else []),
+            ["skactiveml.pool.utils:_conditional_expect"], required_witnesses=("ran",)),
     Harness("classifier_tie_breaking", sym_clf, replay_clf, lambda tier: [dict(n=2, nq=2)],
             ["skactiveml.base:SkactivemlClassifier.predict", "skactiveml.utils._selection:rand_argmin"], required_witnesses=("ran",)),
 ]
